@@ -5,6 +5,7 @@ import GridVerse.Model.Reward
 import GridVerse.Model.Visibility
 import GridVerse.Model.Reset
 import GridVerse.Model.Env
+import GridVerse.Model.Repr
 namespace GV.Codec
 
 abbrev P := StateT (List String) Option
@@ -306,5 +307,30 @@ def showOut : Out → String
   | .state s => showState s
   | .obs o => showState o
   | .stepRes r t => " ".intercalate (r.map showRTerm) ++ " " ++ showBool t
+
+def pEnc : P Enc := do
+  match (← tok) with
+  | "default" => pure .default | "no-overlap" => pure .noOverlap | "compact" => pure .compact
+  | _ => failure
+
+def showInts (l : List Int) : String := " ".intercalate (l.map toString)
+
+def showStateRepr (r : StateRepr) : String :=
+  "G " ++ showInts (r.grid.flatten.flatten) ++ " | A " ++ showInts r.agentIdGrid.flatten ++
+  " | P " ++ " ".intercalate (r.agent.map fun p => s!"{p.1}/{p.2}") ++ " | I " ++ showInts r.item
+
+def showObsRepr (r : ObsRepr) : String :=
+  "G " ++ showInts (r.grid.flatten.flatten) ++ " | A " ++ showInts r.agentIdGrid.flatten ++
+  " | I " ++ showInts r.item
+
+def pStateSpace : P StateSpace := do
+  let h ← pNat; let w ← pNat
+  let kinds ← pCounted pKind; let colors ← pCounted pColor
+  pure ⟨h, w, kinds, colors⟩
+
+def pObsSpace : P ObsSpace := do
+  let h ← pNat; let w ← pNat
+  let kinds ← pCounted pKind; let colors ← pCounted pColor
+  pure ⟨h, w, kinds, colors⟩
 
 end GV.Codec
